@@ -522,12 +522,27 @@ def run(ctx):
         sw, cw, coeffs, words, ops, H, lam = got
         order = cw + sw
         nc, dims = len(cw), 2 ** len(sw)
-        # reference walk operator: Prep† Sel Prep (2|0><0| - I), Prep|0> = Σ sqrt(|c_i|/λ)|i>, Sel = Σ|i><i| ⊗ sign(c_i) P_i
-        a = np.zeros(2**nc)
-        a[: len(coeffs)] = np.sqrt(np.abs(coeffs) / lam)
-        # any unitary with first column a works for the *block*, but the full operator depends on Prep: compare block + spectrum only
-        op = compare("Qubitization", lambda: qp.Qubitization(qp.dot(coeffs, ops), control=cw), order, H / lam,
-                     {"coeffs": coeffs, "words": [str(w) for w in words]}, block=dims)
+        info = {"coeffs": coeffs, "words": [str(w) for w in words]}
+        # documented product: Q = (Prep† Sel Prep) · (2|0><0| - I).  Prep is only fixed up to its first column, so the first factor is
+        # taken from the real PrepSelPrep (whose block is checked against H/λ here and in c_prepselprep); the reflection is ours.
+        try:
+            PSP = np.asarray(qp.matrix(qp.PrepSelPrep(qp.dot(coeffs, ops), control=cw), wire_order=order))
+        except Exception as e:  # noqa: BLE001
+            ctx.violation("tmpl.matrix", f"PrepSelPrep raised {type(e).__name__}: {str(e)[:200]}", case=info, mech=f"raise:PrepSelPrep:{type(e).__name__}")
+            return
+        ctx.ev("tmpl.matrix")
+        if np.max(np.abs(PSP[:dims, :dims] - H / lam)) > TOL:
+            ctx.violation("tmpl.matrix", "PrepSelPrep block != H/λ", case=info, mech="value:PrepSelPrep:matrix")
+            return
+        P0 = np.zeros((2**nc, 2**nc), dtype=complex)
+        P0[0, 0] = 1
+        Rf = full(2 * P0 - np.eye(2**nc), cw, order)
+        ref_full = PSP @ Rf
+
+        def cls(path, why):
+            return None
+
+        op = compare("Qubitization", lambda: qp.Qubitization(qp.dot(coeffs, ops), control=cw), order, ref_full, info, classifier=cls)
         if op is not None:
             try:
                 M = np.asarray(qp.matrix(op, wire_order=order))
@@ -535,11 +550,10 @@ def run(ctx):
                 ev = np.linalg.eigvals(M)
                 Es = np.linalg.eigvalsh(H / lam)
                 want = np.concatenate([np.exp(1j * np.arccos(np.clip(Es, -1, 1))), np.exp(-1j * np.arccos(np.clip(Es, -1, 1)))])
-                # every e^{±i arccos(E/λ)} must be an eigenvalue of the walk operator
                 miss = [w_ for w_ in want if np.min(np.abs(ev - w_)) > 1e-6]
                 if miss:
                     ctx.violation("tmpl.spectrum", f"Qubitization: e^(±i arccos(E/λ)) missing from the spectrum ({len(miss)} of {len(want)})",
-                                  case={"coeffs": coeffs, "words": [str(w) for w in words]}, mech="spectrum:Qubitization")
+                                  case=info, mech="spectrum:Qubitization")
             except Exception as e:  # noqa: BLE001
                 ctx.inconclusive_case(f"Qubitization spectrum: {type(e).__name__}: {e}")
 
@@ -595,8 +609,13 @@ def run(ctx):
         tol = 0.0 if r.random() < 0.6 else float(r.choice([1e-3, 1e-2]))
         # FABLE drops rotation angles below tol: documented as approximate; bound used: dim^2 * tol (each dropped angle changes entries by <= tol)
         bound = 1e-7 if tol == 0 else dim * dim * tol * 2
+        def cls_fable(path, why):
+            if why == "raise:AttributeError" and path.startswith("rule:") and tol > 0:
+                return "FABLE:rule-with-tol-raises-AttributeError"
+            return None
+
         compare("FABLE", lambda: qp.FABLE(A, wires=w, tol=tol), w, A, {"n": n, "tol": tol, "A": np.round(A, 4).tolist()}, block=dim, scale=dim,
-                real_block=True, tol=bound)
+                real_block=True, tol=bound, classifier=cls_fable)
 
     def trotter_ref(coeffs, mats, t, n, order):
         def S(m, tt):
